@@ -10,5 +10,8 @@ mkdir -p .build
 python3 tools/extract.py /repo lean/DeltaModel/Generated
 cd lean
 lake build
-exes=$(grep -A1 '^\[\[lean_exe\]\]' lakefile.toml | sed -n 's/^name = "\(.*\)"/\1/p')
+for exe in $(sed -n 's/^name = "\(drv_.*\)"/\1/p' lakefile.toml); do
+  root=$(grep -A1 "^name = \"$exe\"" lakefile.toml | sed -n 's/^root = "\(.*\)"/\1/p' | tr . /)
+  [ -f "$root.lean" ] && exes="$exes $exe"
+done
 [ -z "$exes" ] || lake build $exes
